@@ -231,7 +231,7 @@ def run(facts, res):
                     src_ok = False
                     for s_ in sites:
                         rcv = arg_term(s_.body, s_.term, 0, 20)
-                        names = [callee_name(x) for x in walk(rcv) if x[0] == "call"]
+                        names = [callee_name(x) for x in walk(rcv, False) if x[0] == "call"]
                         if "get_revisions" in names and s_.callee.name == "for_each" and not (set(names) & {"take", "skip", "filter", "step_by", "take_while", "skip_while"}):
                             src_ok = True
                 else:
@@ -244,7 +244,7 @@ def run(facts, res):
                               if cb.blocks[bb].term.callee is not None and cb.blocks[bb].term.callee.name == "next" and cfg.is_loop_header(bb)]
                         for bb in nb:
                             it = du.operand_term(cb.blocks[bb].term.args[0], 20)
-                            names = {callee_name(x) for x in walk(it) if x[0] == "call"}
+                            names = {callee_name(x) for x in walk(it, False) if x[0] == "call"}
                             if "get_revisions" in names and not (names & {"take", "skip", "filter", "step_by", "take_while", "skip_while"}):
                                 src_ok = True
                         if any(cb.blocks[bb].term.callee.name == "next" and contains_call(du.operand_term(cb.blocks[bb].term.args[0], 20), "get_leafs") for bb in nb):
